@@ -92,7 +92,7 @@ pub fn rule(prop: &str) -> &'static str {
         "C02" => "case = (generated acyclic project with stale files planted at every generated path, input selection, mode, K, seeded schedule); 4 schedules per project. Non-trivial = the required closure has at least one dependency edge and the run returned Ok; distinct = distinct hash of (project bytes, config, action list).",
         "C03" => "case = (generated digraph project incl. cyclic ones, input list with duplicates/aliases, K, seeded schedule). Non-trivial = at least 2 pool tasks for source files and at least one asserted marker; distinct = distinct hash of (project bytes, config, action list).",
         "C05" => "case = (generated digraph project with self-loops / 2-cycles / longer cycles / bystanders, input selection, K, seeded schedule). Non-trivial = the required closure contains a file that can reach a cycle; distinct = distinct hash of (project bytes, config, action list).",
-        "C04" => "case = one cell of the grid {18 fault kinds} x {leaf, middle, root, sibling, outside the closure} x {modes in which the fault is meaningful}, instantiated on a seeded DAG project and run under a seeded schedule (2 schedules per instance); every 8th case is repeated through the real txtpp binary. Every case is non-trivial (carries a fault); distinct = distinct (project, fault, action lists).",
+        "C04" => "case = one cell of the grid {19 fault kinds} x {leaf, middle, root, sibling, outside the closure} x {modes in which the fault is meaningful}, instantiated on a seeded DAG project and run under a seeded schedule (2 schedules per instance); every 8th case is repeated through the real txtpp binary. Every case is non-trivial (carries a fault); distinct = distinct (project, fault, action lists).",
         "C11" => "case = (generated tree of depth <= 3 with the three source-name shapes, dotted stems, look-alikes and a directory with a txtpp-like name; input list of directories / files by either name / ./ and ../ forms / absolute paths / duplicates / missing targets; recursive flag; base directory equal to or different from the process cwd; build from an output-free tree or clean of a fully built tree; seeded schedule over scan and preprocess tasks). Non-trivial = at least two sources expected to be processed; distinct = distinct (tree, config, action list).",
         "C17" => "case = swarm draw of (1-3 sources at depth 0-3 below the base directory; process cwd = base / ancestor / unrelated; base given absolute or relative; shell default / bash -c / `printf %s\\n`; entry point library under the controller or the real binary; variant env (pwd, TXTPP_FILE), argv (random single/multi-line commands shown by the configured shell), status (exit codes, signals), cli-guard (TXTPP_FILE preset)). Every case is non-trivial; distinct = distinct (project, config, action list).",
         "C18" => "case = generated project (cyclic graphs included) whose sources, include targets and pre-existing generated files are mutated at token level (directive fragments, prefixes, Unicode blanks, tag names, path fragments) and byte level (invalid UTF-8, NUL, lone CR, deleted newlines, 256 KiB lines, empty files), run in one or two modes with num_threads in 0..16, recursion on/off, shell in {echo, false, non-existent} under a seeded schedule. Non-trivial = at least two pool tasks; distinct = distinct (project bytes, config, action list).",
@@ -157,7 +157,7 @@ pub fn expected_probes(prop: &str) -> &'static [&'static str] {
             "c05.bystanders_checked",
             "c05.runs_without_cycle",
         ],
-        "C04" => &["fault.fired.F1-tag-while-listening", "fault.fired.F2-command-fails-after-deps", "fault.fired.F3-include-invalid-utf8", "fault.fired.F4-source-invalid-utf8", "fault.fired.F5a-output-is-directory", "fault.fired.F5b-output-dangling-symlink", "fault.fired.F6-output-dev-full", "probe.F6_enospc_surfaced", "fault.fired.F7a-temp-parent-missing", "fault.fired.F7b-temp-target-is-directory", "fault.fired.F7c-temp-target-unwritable", "fault.fired.F9-tampered-output", "fault.fired.F8-fsize-limit", "fault.F8_limit_not_reached", "c04.cli_runs", "c04.ok_runs_checked_against_reference", "probe.error_with_tasks_in_flight_drop_drains"],
+        "C04" => &["fault.fired.F1-tag-while-listening", "fault.fired.F2-command-fails-after-deps", "fault.fired.F2-command-killed-by-signal", "fault.fired.F3-include-invalid-utf8", "fault.fired.F4-source-invalid-utf8", "fault.fired.F5a-output-is-directory", "fault.fired.F5b-output-dangling-symlink", "fault.fired.F6-output-dev-full", "probe.F6_enospc_surfaced", "fault.fired.F7a-temp-parent-missing", "fault.fired.F7b-temp-target-is-directory", "fault.fired.F7c-temp-target-unwritable", "fault.fired.F9-tampered-output", "fault.fired.F8-fsize-limit", "fault.F8_limit_not_reached", "c04.cli_runs", "c04.ok_runs_checked_against_reference", "probe.error_with_tasks_in_flight_drop_drains"],
         "C11" => &["c11.mode.build", "c11.mode.clean", "c11.base_differs_from_cwd", "c11.absolute_input", "c11.dotdot_input", "c11.unresolvable_inputs", "c11.successful_runs"],
         "C17" => &["c17.variant.env", "c17.variant.argv", "c17.variant.status", "c17.cli_guard_checked", "c17.cli_env_checked", "c17.cwd.base", "c17.cwd.ancestor", "c17.cwd.unrelated", "c17.base.relative", "c17.depth.0", "c17.depth.3", "c17.shell.configured"],
         "C18" => &["c18.mode.build", "c18.mode.needed", "c18.mode.verify", "c18.mode.clean", "c18.threads.0", "c18.threads.16", "c18.cases_with_invalid_utf8", "c18.cases_with_nul", "c18.cases_with_huge_line"],
